@@ -318,6 +318,8 @@ def replay(case):
 def run(ck: Check) -> int:
     from pytezos.context.impl import ExecutionContext
     from pytezos.contract.interface import ContractInterface
+    from props import C33_P
+    C33_P.run_P(ck)        # lead's deductive part: induction step of resolve_global_constants over ghost nodes
     ck.function(ExecutionContext.register_global_constant)
     ck.function(ExecutionContext.resolve_global_constants)
     ck.function(ContractInterface.from_micheline)
